@@ -19,15 +19,19 @@ LEVEL = ("sibling / guard rules: (1) every get_type_string implementation evalua
          "no_optional and not required` (path simulation over the boolean atoms, all overrides); to_string emits a default iff the "
          "truth table says so; (2) every transform/construct macro of every property template handles Unset exactly on the "
          "non-required arm, and a guard may be skipped only under `property.required` (truth tables over the Jinja guard atoms, macro "
-         "calls followed into the macro's body, also into constant-named imported templates; constants, comparisons of truth values, "
+         "calls and call blocks - `caller()` is the block's body - followed into the macro's body, also into constant-named imported "
+         "templates, `set` blocks read as the text they hold; constants, comparisons of truth values, "
          "loops over literal sequences and selectattr/rejectattr chains are read as the decisions they are); (3) model I/O: "
          "unconditional key writes imply `required`, optional pops carry the UNSET default (loop filters count as guards); (4) null: "
          "union parser, handle_nullable adds null on every path of every schema shape, enum builder facts; (5) query filter tests "
          "identity with UNSET/None, cookie and header writes outside the block of an UNSET test imply `required`, optional path "
          "parameters rejected on every path; (6) mandatory attributes are declared before defaulted ones (passes in execution order); "
          "(7) required/default are never changed in place; (8) every function that hands on the requiredness of the declaration it was "
-         "given does so on every path to a successful return (statement CFG; keyword, position, keyword dictionary, alias local, or "
-         "the declaration itself handed to a forwarder); (9) decode direction: the Python code each kind's construct macro generates "
+         "given does so on every path to a successful return (path simulation; a return is an error return by what the returned local "
+         "holds on that path: error constructor, or the arm of an isinstance test for an error class - also one that binds it; keyword, "
+         "position, keyword dictionary, alias local, or the declaration itself handed to a forwarder); (10) merge_properties, private "
+         "helpers written out in place and loops over constant tables unrolled: every path to a result hands both declarations to the "
+         "one function that ORs their `required`, or returns under equality of the two; (9) decode direction: the Python code each kind's construct macro generates "
          "for a non-required property (per valuation of the template conditions, macro calls followed, placeholders for destination / "
          "source / unknown) is parsed and run abstractly on the path where the source is UNSET: the destination ends as the source / "
          "UNSET, never as a fresh value.")
@@ -361,6 +365,9 @@ def run(rep: Report, ctx: Any) -> str:
                   rhs="required=<the declaration's> on every path to a successful return")
     rep.floor("requiredness_forwarders", n_fw, 10)
 
+    # ---- R10.10 requiredness survives a merge ------------------------------------------------------------------------------------
+    _merge_keeps_required(rep, ix)
+
     # ---- R10.9 the UNSET source passes through the decoder ------------------------------------------------------------------------
     # from_dict pops an optional key with the UNSET default (R10.3) and hands `<python_name>` to cls(...).  What lies between is the
     # kind's `construct` macro, or a plain assignment when the kind has none.  For every valuation of the template conditions with
@@ -558,6 +565,80 @@ def run(rep: Report, ctx: Any) -> str:
     rep.not_decided.append("run-time values of attributes; nullable without type or composition falls through handle_nullable (observation)")
     rep.observe("Schema.handle_nullable: `nullable: true` on a schema without type/oneOf/anyOf/allOf is ignored")
     return LEVEL
+
+
+def _merge_keeps_required(rep: Report, ix: Any) -> None:
+    """allOf merges two declarations of one property into one (merge_properties); the merged declaration is required when either
+    was.  The OR is taken in one place - the function that receives both declarations and builds the result with
+    `required=<a>.required or <b>.required` - so every way out of merge_properties that is not an error must go through it with
+    BOTH declarations; returning one of them as it stands is right only when the two are equal."""
+    from .siblings import _Inliner, implied_atoms
+
+    rep.rule("R10.10", "merging two declarations keeps `required` if either has it: every path of merge_properties (private helpers "
+                       "written out in place) that returns a result hands BOTH declarations (or copies made of them) to one call - the "
+                       "combining function, which builds the result with `required=<one>.required or <other>.required` - or returns "
+                       "under `<first> == <second>`; a shortcut that returns one declaration as it stands drops the other's `required`")
+    f = ix.func("merge_properties.merge_properties")
+    ps = [p.arg for p in f.params]
+    rep.require(len(ps) == 2, "the two declarations merged by merge_properties")
+    fn = _Inliner(ix, f, depth=3).run()
+    errs = error_locals(fn)
+    sim = PathSim(fn)
+    side = {ps[0]: 1, ps[1]: 2}
+
+    def base_side(e: ast.expr, st: dict, depth: int = 0) -> "int | None":
+        """1 / 2: the expression is the first / second declaration, or a copy made of it"""
+        e = sim.resolve(e, st)
+        if isinstance(e, ast.Name):
+            return side.get(e.id)
+        if isinstance(e, ast.Call) and e.args and depth < 3 and call_name(e).rsplit(".", 1)[-1] in ("evolve", "replace", "copy", "deepcopy"):
+            return base_side(e.args[0], st, depth + 1)
+        return None
+
+    def equal_taken(p: SimPath) -> bool:
+        for ev in p.events:
+            if ev.kind != "test" or ev.taken is None or not isinstance(ev.node, ast.expr):
+                continue
+            for t, val in implied_atoms(ev.node, ev.taken):
+                if isinstance(t, ast.Compare) and len(t.ops) == 1 and isinstance(t.ops[0], (ast.Eq, ast.NotEq)) and \
+                        {base_side(t.left, ev.state), base_side(t.comparators[0], ev.state)} == {1, 2} and val == isinstance(t.ops[0], ast.Eq):
+                    return True
+        return False
+
+    combiners: set[str] = set()
+    bad: list[ast.Return] = []
+    good: set[tuple[int, str]] = set()
+    for p in sim.paths():
+        r = p.end
+        if not isinstance(r, ast.Return) or r.value is None or path_returns_error(p, errs):
+            continue
+        v = sim.resolve(r.value, p.end_state)
+        if isinstance(v, ast.Constant) and v.value is None:
+            continue
+        if isinstance(v, ast.Call) and {1, 2} <= {base_side(a, p.end_state) for a in [*v.args, *[k.value for k in v.keywords]]}:
+            combiners.add(call_name(v).rsplit(".", 1)[-1])
+            good.add((r.lineno, norm(r)))
+            continue
+        if equal_taken(p):
+            good.add((r.lineno, norm(r)))
+            continue
+        if not any(x.lineno == r.lineno and norm(x) == norm(r) for x in bad):
+            bad.append(r)
+    rep.check(not bad, "R10.10", f"{short(f)}::both-declarations-combined",
+              f"a path returns `{norm(bad[0].value)[:60] if bad else ''}` without handing both declarations to the combining function: a "
+              "`required` that only the other declaration carries is lost (the property is generated as optional)",
+              where(f, bad[0] if bad else f.node), lhs=[f"line {r.lineno}: {norm(r)[:70]}" for r in bad][:3],
+              rhs="<combine>(<first>, <second>) on every path to a result, or `first == second`")
+    rep.floor("merge_result_returns", len(good), 4)
+    found = [g for g in ix.all_functions if g.module is f.module and g.name in combiners]
+    rep.require(found or bad, "the function merge_properties hands both declarations to")
+    for g in found:
+        ors = [kw.value for c in ast.walk(g.node) if isinstance(c, ast.Call) for kw in c.keywords if kw.arg == "required"]
+        ok = any(isinstance(v, ast.BoolOp) and isinstance(v.op, ast.Or) and
+                 len({norm(x.value) for x in v.values if isinstance(x, ast.Attribute) and x.attr == "required"}) >= 2 for v in ors)
+        rep.check(ok, "R10.10", f"{short(g)}::required-or", "the function that combines two declarations does not build the result with "
+                  "`required=<one>.required or <other>.required`", where(g, g.node), lhs=[norm(v)[:60] for v in ors][:2],
+                  rhs="required=a.required or b.required")
 
 
 def _py_blocks(text: str) -> Iterator[ast.Module]:
